@@ -111,6 +111,12 @@ def systematic(name, star, one):
     out = [star + name[k:], name[:k] + star, star + name[1:-1] + one if n >= 2 else star + one, one + name[1:], name[:-1] + one,
            star + name[1:k] + one + name[k + 1:] if n > k + 1 else star + one, star + one, one + star, star + name + star, one * n, one * (n + 1), star + name[-1:],
            name[:1] + star + name[-1:], star + name[k:].swapcase(), name[:k].swapcase() + star + one if n > k else name + one]
+    # a multi-character wildcard between a prefix and a suffix that OVERLAP in the name (the name is shorter than prefix + suffix:
+    # no match), that meet exactly (the wildcard matches the empty string) and that leave a gap
+    if n >= 2:
+        j = max(1, n // 2)
+        out += [name[:j + 1] + star + name[j:], name[:j] + star + name[j:], name[:j] + star + name[j - 1:] if j >= 1 else "", name + star + name[-1:], name[:1] + star + name,
+                name[:n - 1] + star + name[1:], name[:j + 1].swapcase() + star + name[j:]]
     return [p for p in out if p]
 
 
@@ -351,7 +357,7 @@ def run(ctx):
             st["hist"]["combo_ok"] += 1
     ctx.coverage.update(
         evaluations=st["evaluations"], distinct_nontrivial=len(st["distinct"]), traces_validated_against_impl=st["agreed"],
-        rule="(plus: one pattern text read by two different operators in one query, joined by and/or, must give the intersection/union of the single-operator results) %d file names over letters of both cases, digits, space and the regex metacharacters %r; patterns derived from the names (substring -> wildcard, one char -> single wildcard, case flips, edits, inserted metacharacters) for glob (= / !=), LIKE (like / notlike), regex (=~ / !=~) and exact (=== / !==, also on patterns with wildcard characters, which they read literally); the real binary's rows are compared with (a) the textbook verdict (glob_spec / like_spec / equality evaluated in Coq) and (b) the faithful model (generated tables + regex engine); negatives must be exact complements. non-trivial = a pattern selecting a proper non-empty subset" % (len(names), META),
+        rule="(plus: one pattern text read by two different operators in one query, joined by and/or, must give the intersection/union of the single-operator results) %d file names over letters of both cases, digits, space and the regex metacharacters %r; patterns derived from the names (substring -> wildcard, one char -> single wildcard, case flips, edits, inserted metacharacters, a wildcard between a prefix and a suffix that overlap / meet / leave a gap in the name) for glob (= / !=), LIKE (like / notlike), regex (=~ / !=~) and exact (=== / !==, also on patterns with wildcard characters, which they read literally); the real binary's rows are compared with (a) the textbook verdict (glob_spec / like_spec / equality evaluated in Coq) and (b) the faithful model (generated tables + regex engine); negatives must be exact complements. non-trivial = a pattern selecting a proper non-empty subset" % (len(names), META),
         samples=st["samples"], distribution=dict(st["hist"]))
     return ctx.finish(trusted=[
         "regex crate semantics are modelled by lib/Regex.v + lib/RegexParse.v on an ASCII subset ((?i) = ASCII case folding; Unicode simple case folding of the real crate is outside the model and outside the generated alphabet)",
